@@ -20,6 +20,22 @@ def goToI64 (f : Float) : Int :=
   if f.isNaN || f ≥ 9223372036854775808.0 || f < -9223372036854775808.0 then -9223372036854775808
   else f.toInt64.toInt
 
+def signBit (f : Float) : Bool := f.toBits >>> 63 == 1
+
+/-- `math.Min`: −Inf wins, then NaN, then −0 before +0, else the smaller. -/
+def goMin (x y : Float) : Float :=
+  if x == -1.0 / 0.0 || y == -1.0 / 0.0 then -1.0 / 0.0
+  else if x.isNaN || y.isNaN then 0.0 / 0.0
+  else if x == 0.0 && x == y then (if signBit x then x else y)
+  else if x < y then x else y
+
+/-- `math.Max`: +Inf wins, then NaN, then +0 before −0, else the larger. -/
+def goMax (x y : Float) : Float :=
+  if x == 1.0 / 0.0 || y == 1.0 / 0.0 then 1.0 / 0.0
+  else if x.isNaN || y.isNaN then 0.0 / 0.0
+  else if x == 0.0 && x == y then (if signBit x then y else x)
+  else if x > y then x else y
+
 def floatOps : FOps Float where
   add := (· + ·)
   sub := (· - ·)
@@ -34,6 +50,8 @@ def floatOps : FOps Float where
   ofInt i := (Int64.ofInt i).toFloat
   toI64 := goToI64
   abs := Float.abs
+  min := goMin
+  max := goMax
   sqrt := Float.sqrt
   posInf := 1.0 / 0.0
   negInf := -1.0 / 0.0
@@ -61,9 +79,12 @@ def parseVal (tok : String) : Option V :=
   | "d" => body.toInt?.map .dur
   | "t" => body.toInt?.map .time
   | "f" => (hexNat body).map (fun n => .float (Float.ofBits (UInt64.ofNat n)))
-  | "s" => (unesc body).map .str
-  | "r" => (unesc body).map .regex
+  | "s" => (unescRaw body).map .str
+  | "r" => (unescRaw body).map .regex
   | _ => none
+
+/-- bytes → token (same alphabet as `kit.Esc`). -/
+def escB (s : Bytes) : String := if s.isEmpty then "%" else s.foldl (fun acc b => acc ++ escByte b) ""
 
 def renderVal : V → String
   | .bool b => s!"b:{boolTok b}"
@@ -71,8 +92,8 @@ def renderVal : V → String
   | .dur d => s!"d:{d}"
   | .time t => s!"t:{t}"
   | .float f => if f.isNaN then "f:nan" else s!"f:{hex16 f.toBits.toNat}"
-  | .str s => s!"s:{esc s}"
-  | .regex p => s!"r:{esc p}"
+  | .str s => s!"s:{escB s}"
+  | .regex p => s!"r:{escB p}"
   | .missing => "m"
 
 /-- canonical form of an observed value token (all NaNs are one value). -/
@@ -140,7 +161,7 @@ def parsePoint : List String → Option (Point Float)
         go more { p with fields := p.fields ++ [(n, v)] }
       | "T" :: n :: v :: more, p => do
         let n ← unesc n
-        let v ← unesc v
+        let v ← unescRaw v
         go more { p with tags := p.tags ++ [(n, v)] }
       | _, _ => none
     go rest { time := tm, fields := [], tags := [] }
@@ -149,7 +170,7 @@ def parsePoint : List String → Option (Point Float)
 /-- oracle tables of one case -/
 structure Ora where
   calls : List (String × List String × ORes Float) := []   -- fn, rendered args, result
-  res : List (String × String × Bool) := []
+  res : List (Bytes × Bytes × Bool) := []
 
 def mkCtx (o : Ora) : Ctx Float :=
   { ops := floatOps, tbl := Gen.table, sigs := Gen.sigs,
@@ -266,8 +287,8 @@ def judge (_id : String) (lines : Array String) : Verdict := Id.run do
       | some (e, []) => st := { st with expr := some e }
       | _ => return .badop l
     | ["re", p, s, b] =>
-      let some p := unesc p | return .badop l
-      let some s := unesc s | return .badop l
+      let some p := unescRaw p | return .badop l
+      let some s := unescRaw s | return .badop l
       st := { st with ora := { st.ora with res := (p, s, b == "1") :: st.ora.res } }
     | "ora" :: fn :: rest =>
       -- ora <fn> <args…> <res>
